@@ -68,6 +68,19 @@ def _model_spec(rng, mid):
                 spec['ctor']['sample_size'] = rng.choice([10, 30])
             elif o < 0.65:
                 spec['ctor']['weights'] = rng.choice(['ramp', 'ramp_int', 'ramp_int_list'])
+            elif o < 0.9:
+                # option combinations (R9-C14-A: a restore path that handles each option alone
+                # but drops one of two given together)
+                # (weights together with sample_size is not a configuration the library supports:
+                # fit raises, the weights belong to the rows that were subsampled away)
+                combo = rng.choice([('bw_method', 'weights'), ('bw_method', 'sample_size'),
+                                    ('bw_method', 'weights')])
+                if 'bw_method' in combo:
+                    spec['ctor']['bw_method'] = rng.choice([0.5, 0.3, 'silverman'])
+                if 'weights' in combo:
+                    spec['ctor']['weights'] = rng.choice(['ramp', 'ramp_int', 'ramp_int_list'])
+                if 'sample_size' in combo:
+                    spec['ctor']['sample_size'] = rng.choice([10, 30])
         if cls.endswith('TruncatedGaussian') and rng.random() < 0.5:
             spec['ctor'] = {'minimum': -60.0, 'maximum': 90.0}
     elif r < 0.5:
